@@ -7,19 +7,12 @@ package dtls
 
 import (
 	"context"
-	"crypto/ecdsa"
-	"crypto/ed25519"
-	stdelliptic "crypto/elliptic"
-	"crypto/rand"
-	"crypto/rsa"
 	"crypto/sha256"
 	"crypto/tls"
 	"crypto/x509"
-	"crypto/x509/pkix"
 	"encoding/hex"
 	"errors"
 	"fmt"
-	"math/big"
 	"os"
 	"sort"
 	"sync"
@@ -40,7 +33,8 @@ import (
 // ---------------------------------------------------------------- credentials
 
 // Key types of a certificate: 0 none, 1 Ed25519 (the lab's fixed leaves), 2 ECDSA P-256, 3 RSA 2048.
-// ECDSA/RSA leaves are issued here by a private CA (ECDSA-with-SHA256, like the lab CA).
+// ECDSA/RSA leaves: fixed credentials of zz_verif_c11_creds_test.go, issued by a private CA with
+// ecdsa-with-SHA256 like the lab CA's leaves.
 type c11Creds struct {
 	Pool   *x509.CertPool // lab CA + the CA of this file
 	Server [4]tls.Certificate
@@ -52,71 +46,18 @@ var (
 	c11CredsVal  *c11Creds //nolint:gochecknoglobals
 )
 
-func c11Leaf(ca *x509.Certificate, caKey *ecdsa.PrivateKey, serial int64, cn string, pub, priv any) tls.Certificate {
-	tmpl := &x509.Certificate{
-		SerialNumber: big.NewInt(serial),
-		Subject:      pkix.Name{CommonName: cn},
-		NotBefore:    time.Unix(0, 0),
-		NotAfter:     time.Date(2100, 1, 1, 0, 0, 0, 0, time.UTC),
-		KeyUsage:     x509.KeyUsageDigitalSignature,
-		ExtKeyUsage:  []x509.ExtKeyUsage{x509.ExtKeyUsageServerAuth, x509.ExtKeyUsageClientAuth},
-		DNSNames:     []string{cn},
-	}
-	der, err := x509.CreateCertificate(rand.Reader, tmpl, ca, pub, caKey)
-	if err != nil {
-		panic(err)
-	}
-	leaf, err := x509.ParseCertificate(der)
-	if err != nil {
-		panic(err)
-	}
-
-	return tls.Certificate{Certificate: [][]byte{der}, PrivateKey: priv, Leaf: leaf}
-}
-
 func c11GetCreds() *c11Creds {
 	c11CredsOnce.Do(func() {
 		lab := vGetCreds()
-		caKey, err := ecdsa.GenerateKey(stdelliptic.P256(), rand.Reader)
-		if err != nil {
-			panic(err)
-		}
-		caT := &x509.Certificate{
-			SerialNumber: big.NewInt(1), Subject: pkix.Name{CommonName: "c11-ca"},
-			NotBefore: time.Unix(0, 0), NotAfter: time.Date(2100, 1, 1, 0, 0, 0, 0, time.UTC),
-			KeyUsage: x509.KeyUsageCertSign | x509.KeyUsageDigitalSignature, IsCA: true, BasicConstraintsValid: true,
-		}
-		caDER, err := x509.CreateCertificate(rand.Reader, caT, caT, &caKey.PublicKey, caKey)
-		if err != nil {
-			panic(err)
-		}
-		ca, err := x509.ParseCertificate(caDER)
-		if err != nil {
-			panic(err)
-		}
 		pool := x509.NewCertPool()
 		pool.AddCert(lab.CA)
-		pool.AddCert(ca)
+		pool.AddCert(vPemCert(c11PemCA))
 		cr := &c11Creds{Pool: pool}
 		cr.Server[1], cr.Client[1] = lab.Server, lab.Client
-		for i, cn := range []string{"server.verif", "client.verif"} {
-			ek, err := ecdsa.GenerateKey(stdelliptic.P256(), rand.Reader)
-			if err != nil {
-				panic(err)
-			}
-			rk, err := rsa.GenerateKey(rand.Reader, 2048)
-			if err != nil {
-				panic(err)
-			}
-			e := c11Leaf(ca, caKey, int64(10+i), cn, &ek.PublicKey, ek)
-			r := c11Leaf(ca, caKey, int64(20+i), cn, &rk.PublicKey, rk)
-			if i == 0 {
-				cr.Server[2], cr.Server[3] = e, r
-			} else {
-				cr.Client[2], cr.Client[3] = e, r
-			}
-		}
-		_ = ed25519.PublicKeySize
+		cr.Server[2] = vKeyPair(c11PemServerECDSACert, c11PemServerECDSAKey)
+		cr.Server[3] = vKeyPair(c11PemServerRSACert, c11PemServerRSAKey)
+		cr.Client[2] = vKeyPair(c11PemClientECDSACert, c11PemClientECDSAKey)
+		cr.Client[3] = vKeyPair(c11PemClientRSACert, c11PemClientRSAKey)
 		c11CredsVal = cr
 	})
 
@@ -371,7 +312,7 @@ type c11Case struct {
 	TDone   int64      `json:"tdone"`
 	DataOK  bool       `json:"data_ok"`
 	NDgram  int        `json:"ndgram"`
-	Storm   bool       `json:"storm"` // more than 20000 datagrams: the run was cut off
+	Storm   bool       `json:"storm"` // more than 3000 datagrams: the run was cut off
 }
 
 func c11Ver(v protocol.Version) int {
@@ -799,7 +740,7 @@ func c11Pump(lab *vLab, mask []string, limit time.Duration, onDgram func(vDatagr
 		if stop() && len(helds) == 0 {
 			break
 		}
-		if delivered > 20000 {
+		if delivered > 3000 {
 			// the endpoints keep answering each other without virtual time advancing: give up
 			break
 		}
@@ -879,7 +820,7 @@ func runC11(t *testing.T, id int, gen string, c, s c11Cfg, resume bool, mask []s
 	next := c11Pump(lab, mask, limit, wire.feed, lab.bothDone)
 	res.TDone = lab.Net.now().Milliseconds()
 	res.NDgram = next
-	res.Storm = next > 20000
+	res.Storm = next > 3000
 	res.Client.Done, res.Server.Done = lab.Client.handshakeDone(), lab.Server.handshakeDone()
 	for _, x := range []struct {
 		p    *vPeer
